@@ -61,7 +61,7 @@ def J(id, entry, props, enforce=None, replace=(), loops=False, unwind=None, unwi
     j.update(kw); JOBS.append(j); return j
 J('DecodeConnectivity.contract', 'h_enf_MSD_DecodeConnectivity', ['C03', 'C18', 'C02'], native_api={'src': 'native/api_seqmesh_badindex.cc', 'args': []}, enforce='MSD_DecodeConnectivity', loops=True,
   replace=['DecoderBuffer_Decode_u8', 'DecoderBuffer_Decode_u16', 'DecoderBuffer_Decode_u32', 'DecodeVarint_u32', 'DecoderBuffer_remaining_size', 'MSD_DecodeAndDecompressIndices',
-           'Mesh_AddFace', 'PointCloud_set_num_points', 'MSD_bitstream_version'], timeout=1800, cost=10, cbmc=['--object-bits', '11'])
+           'Mesh_AddFace', 'PointCloud_set_num_points', 'MSD_bitstream_version'], timeout=2400, cost=10, cbmc=['--object-bits', '11'], solver='cadical')
 J('DecodeAndDecompressIndices.contract', 'h_enf_MSD_DecodeAndDecompressIndices', ['C03', 'C18', 'C02'], native_api={'src': 'native/api_seqmesh_badindex.cc', 'args': []}, enforce='MSD_DecodeAndDecompressIndices', loops=True,
   replace=['alloc_u32_array', 'DecodeSymbols_stub', 'Mesh_AddFace'], timeout=1800, cost=10)
 TYPES_PRELUDE = ['core_types.h']
